@@ -55,7 +55,7 @@ def configure(cfg):
                 m2[k] = v
             EXP[(ki, vi)] = (m2,) + hc.canonical_state(m2)
     # lookup keys beyond the pool: one-nibble-off, extensions, a foreign key
-    qs = set(KEYS)
+    qs = set(KEYS) | set(MODEL)
     for k in KEYS:
         qs.add(k + b"\x00")
         if k:
